@@ -110,7 +110,7 @@ def build_api(case, provider, variant):
     comp = icalendar.Event() if kind == 0 else icalendar.Todo()
     endname = "DTEND" if kind == 0 else "DUE"
     if st is not None:
-        if variant:
+        if variant == 1:
             comp.add("DTSTART", S.mk_dt(st, provider))
         else:
             comp.start = S.mk_dt(st, provider)
@@ -118,6 +118,7 @@ def build_api(case, provider, variant):
         comp.add(endname, S.mk_dt(en, provider))
     if du is not None:
         comp.add("DURATION", S.mk_dt(("td", du), provider))
+    late = []        # variant 2: settings made after the alarm was attached and its times were read once
     for a in als:
         al = icalendar.Alarm()
         tr = a["trigger"]
@@ -125,22 +126,29 @@ def build_api(case, provider, variant):
             al.add("TRIGGER", S.mk_dt(("td", -60), provider))
             al.add("TRIGGER", S.mk_dt(("td", -120), provider))
         elif tr is not None:
-            if a["related"] is not None and variant:
+            if a["related"] is not None and variant == 1:
                 al.add("TRIGGER", S.mk_dt(tr, provider), parameters={"RELATED": a["related"]})
             elif tr[0] == "d":
                 al.add("TRIGGER", S.mk_dt(tr, provider))
             else:
                 al.TRIGGER = S.mk_dt(tr, provider)
                 if a["related"] is not None:
-                    al.TRIGGER_RELATED = a["related"]
+                    if variant == 2:
+                        late.append((al, "TRIGGER_RELATED", a["related"]))
+                    else:
+                        al.TRIGGER_RELATED = a["related"]
         if a["repeat"] is not None:
-            if variant:
+            if variant == 1:
                 al.add("REPEAT", a["repeat"])
+            elif variant == 2:
+                late.append((al, "REPEAT", a["repeat"]))
             else:
                 al.REPEAT = a["repeat"]
         if a["duration"] is not None:
-            if variant:
+            if variant == 1:
                 al.add("DURATION", S.mk_dt(("td", a["duration"]), provider))
+            elif variant == 2:
+                late.append((al, "DURATION", S.mk_dt(("td", a["duration"]), provider)))
             else:
                 al.DURATION = S.mk_dt(("td", a["duration"]), provider)
         for ln in a.get("extra", []):
@@ -148,6 +156,19 @@ def build_api(case, provider, variant):
             nm, *ps = nm.split(";")
             al.add(nm, val, parameters=dict(x.split("=", 1) for x in ps) or None)
         comp.add_component(al)
+    if variant == 2:
+        from icalendar import Alarms
+        for read in (lambda: [x.triggers for x in comp.subcomponents], lambda: Alarms(comp).times, lambda: comp.alarms.times):
+            try:
+                read()
+            except Exception:  # noqa: BLE001
+                pass
+        for al, attr, val in late:
+            setattr(al, attr, val)
+            try:
+                al.triggers
+            except Exception:  # noqa: BLE001
+                pass
     return comp
 
 
@@ -322,7 +343,8 @@ def run_provider(ctx, res, cases, provider):
         res.dist(f"{provider}:{label}")
         nontriv = any(a["trigger"] not in (None, "many") for a in als) and st is not None
         res.count((provider, case), nontrivial=nontriv)
-        builds = [("api", build_api(case, provider, 0)), ("api-add", build_api(case, provider, 1))]
+        builds = [("api", build_api(case, provider, 0)), ("api-add", build_api(case, provider, 1)),
+                  ("api-late", build_api(case, provider, 2))]
         if parseable(case):
             cls = icalendar.Event if kind == 0 else icalendar.Todo
             builds.append(("parsed", cls.from_ical(text_of(case))))
